@@ -2051,7 +2051,7 @@ def run(ctx: Ctx):
             run_history(ctx, drv, hist + json.loads(json.dumps(bat)), tmp)
             ctx.traces += 1
         # (b) random histories
-        for _ in range(ctx.budget(2000, 18000)):
+        for _ in range(ctx.budget(2000, 11000)):
             n = rng.choice([1, 2, 3, 5, 8, 12, 20, 30])
             hist = gen_history(rng, n)
             muts = [op for op in hist if op["op"] in MUTATING]
@@ -2062,7 +2062,7 @@ def run(ctx: Ctx):
             run_history(ctx, drv, hist, tmp)
             ctx.traces += 1
         # (b2) configurations aimed at the text form; corner cases of the reader
-        for _ in range(ctx.budget(400, 6000)):
+        for _ in range(ctx.budget(400, 4000)):
             hist = gen_rt_history(rng)
             ctx.case({"digest": common.digest(hist), "rt": len(hist)})
             ctx.count("text-form")
@@ -2075,7 +2075,7 @@ def run(ctx: Ctx):
             run_history(ctx, drv, hist, tmp)
             ctx.traces += 1
         # (d) variables along the fallback chain
-        for _ in range(ctx.budget(350, 6000)):
+        for _ in range(ctx.budget(350, 3000)):
             hist = gen_vars_history(rng)
             ctx.case({"digest": common.digest(hist), "vars": len(hist)},
                      nontrivial=any(op["op"] in "LK" and op.get("on") for op in hist))
@@ -2083,7 +2083,7 @@ def run(ctx: Ctx):
             run_history(ctx, drv, hist, tmp)
             ctx.traces += 1
         # (e) objects handed out by getters, changed in place; deleted sections
-        for _ in range(ctx.budget(150, 3000)):
+        for _ in range(ctx.budget(150, 1500)):
             hist = gen_alias_history(rng)
             ctx.case({"digest": common.digest(hist), "alias": [op.get("kind", op["op"]) for op in hist if op["op"] in "YXC"]})
             ctx.count("in-place-changes")
@@ -2093,7 +2093,7 @@ def run(ctx: Ctx):
             run_history(ctx, drv, hist, tmp)
             ctx.traces += 1
         # (c) accessors and replace
-        for _ in range(ctx.budget(160, 3000)):
+        for _ in range(ctx.budget(160, 1800)):
             hist = gen_pure(rng, 50)
             ctx.case({"digest": common.digest(hist), "pure": 50})
             ctx.count("pure")
